@@ -7,9 +7,11 @@ use std::panic::{catch_unwind, AssertUnwindSafe};
 mod sparseset;
 mod plevel;
 mod plevel_ext;
+mod plevel_logic;
 mod plevel_global;
 mod lp;
 mod limits;
+mod gac;
 
 pub fn parse_list(tok: &str) -> Vec<i32> {
     if tok == "-" || tok.is_empty() {
@@ -39,6 +41,7 @@ fn main() {
         "view" => plevel::run_view,
         "lp" => lp::run_case,
         "limits" => limits::run_case,
+        "gac" => gac::run_case,
         _ => {
             eprintln!("unknown sub-command {}", sub);
             std::process::exit(2);
